@@ -122,11 +122,11 @@ type HistSpec struct {
 // ---------------------------------------------------------------- observation
 
 type obsPkt struct {
-	id, job, dev               int64
+	id, job, dev              int64
 	flen, fpos, fgroup, fbits int64
-	tags                       int64
-	runs                       [][2]int64
-	n                          int
+	tags                      int64
+	runs                      [][2]int64
+	n                         int
 }
 
 func observe(p *com.Packet) obsPkt {
@@ -857,7 +857,7 @@ func main() {
 	// ---- random sizes and interleavings
 	nr, big := 16, 3
 	if thorough {
-		nr, big = 1200, 5
+		nr, big = 600, 5
 	}
 	for i := 0; i < nr; i++ {
 		var n int
